@@ -8,7 +8,7 @@ MANIFEST = dict(
               "and any interleaving) composed with the baseline comparison and determine_exit_code; tied by trace validation of real runs: every sequential "
               "schedule exhaustively for small file sets, 1..16 rayon threads with random orders and repetitions for larger ones",
     text="Theorems C11_exit_invariant_no_baseline, C11_exit_invariant, C11_never_passes_failing_run, C11_exit_invariant_run_loop, C11_update_run_same_outcome (a run that updates the "
-         "baseline is not cut short), C11_no_ff_results_identical (and the exit-code lemmas exit_1_iff, warn_only_forces_0) hold for all result lists, all sub-runs R' with ff_sub R R' and all flag combinations (unbounded). Every observed fail-fast "
+         "baseline is not cut short), C11_no_ff_results_identical, C11_known_debt_whatever_the_recorded_figures (what stops a fail-fast run depends on the keys of the baseline only: a recorded file that has grown is still known debt) (and the exit-code lemmas exit_1_iff, warn_only_forces_0) hold for all result lists, all sub-runs R' with ff_sub R R' and all flag combinations (unbounded). Every observed fail-fast "
          "result list of the real CLI is checked to satisfy ff_sub against the full run and its exit status to equal the model's; without fail-fast the JSON "
          "output is byte-identical across thread counts.",
     note="Not shown by proof: that rayon's scheduler and the Relaxed atomics only produce executions inside ff_sub (argued in Check/FailFast.v, validated on "
@@ -29,6 +29,11 @@ def small_cases(ctx):
     # twin pair matter: whichever is counted first must not lend its counts to the other
     pl = [("yr" + "u" * (k - 2), None), ("ryo" + "u" * (k - 3), [0]), ("yrw" + "y" * (k - 3), None)] + pl
     pl = [("eo" + "u" * (k - 2), None), ("eoo" + "u" * (k - 3), [1]), ("ewo" + "e" * (k - 3), None), ("eo" + "w" * (k - 2), [1])] + pl
+    # recorded files whose size differs from the recorded one (g: grown since the baseline was written, k: shrunk) in front
+    # of / behind an unrecorded violator: recorded is recorded, neither may stop a fail-fast run
+    pl = [("go" + "u" * (k - 2), [0]), ("gok" + "u" * (k - 3), [0, 2]), ("gg" + "o" * (k - 2), [0, 1]), ("kwo" + "g" * (k - 3), [0])] + pl
+    # one file named twice: by its own name and through a symlink that falls under a laxer content rule (l), every order
+    pl = [("ol" + "u" * (k - 2), None), ("olo" + "u" * (k - 3), [2]), ("lgo" + "l" * (k - 3), [1]), ("wl" + "o" * (k - 2), None)] + pl
     out = []
     for i, (sizes, bl) in enumerate(pl):
         out.append((sizes, bl, i % 2 == 1, i % 5 == 2, i % 11 == 7))
@@ -75,8 +80,8 @@ def run(ctx):
     reps = 2 if ctx.tier == "quick" else 3
     for i in range(nbig):
         n = rng.choice([8, 12, 20, 40]) if ctx.tier == "quick" else rng.choice([8, 20, 40, 60])
-        sizes = "".join(rng.choice("uuuwwoeyr" if i % 3 else "uwooeyr") for _ in range(n))
-        fails = [j for j, c in enumerate(sizes) if c in "or"]
+        sizes = "".join(rng.choice("uuuwwoeyrgl" if i % 3 else "uwooeyrggkl") for _ in range(n))
+        fails = [j for j, c in enumerate(sizes) if c in "orgk"]
         bl = None if i % 4 == 3 else [j for j in fails if rng.random() < 0.5]
         orders = []
         for _ in range(2 if ctx.tier == "quick" else 3):
@@ -86,7 +91,7 @@ def run(ctx):
         jobs.append(("rand", sizes, bl, orders, threads_all, reps, i % 2 == 0, i % 5 == 1, False, False))
         # directory scans: some over-long files also break the naming rule of src; the content entry of the
         # baseline grandfathers both of their violations (the scan-time violation must not stop a fail-fast run)
-        ssizes = sizes.replace("e", "u")
+        ssizes = sizes.replace("e", "u").replace("l", "u")     # (a scan does not follow a symlink to a file)
         if i % 2 == 0:
             ssizes = "".join(("N" if (c == "o" and (bl is None or j in bl or rng.random() < 0.3)) else c) for j, c in enumerate(ssizes))
         jobs.append(("scan", ssizes, bl, [None], threads_all[:4] if ctx.tier == "quick" else threads_all, reps, i % 2 == 1, False, False, True))
@@ -105,11 +110,12 @@ def run(ctx):
     ident_runs, ident_bad = 0, []
     for i in range(4 if ctx.tier == "quick" else 16):
         n = rng.choice([10, 30, 60])
-        sizes = "".join(rng.choice("uwo") for _ in range(n))
-        pj = BigProject(exe, sizes, [j for j, c in enumerate(sizes) if c == "o" and rng.random() < 0.5])
+        sizes = "".join(rng.choice("uwoogl") for _ in range(n))
+        pj = BigProject(exe, sizes, [j for j, c in enumerate(sizes) if c in "og" and rng.random() < 0.5])
         try:
             order = list(range(n))
             rng.shuffle(order)
+            # (the list names over-long files twice: by their own name and through symlinks under a laxer rule)
             for files in (None, [pj.paths[x] for x in order]):
                 outs = []
                 for th in (1, 2, 4, 8, 16):
@@ -169,7 +175,7 @@ def run(ctx):
     ctx.cov["evaluations"] = lib["cases"] + len(traces) + ident_runs
     ctx.cov["distinct_nontrivial"] = len(nontrivial)
     ctx.cov["traces_validated_against_impl"] = len(traces) - len({json.dumps(b["trace"], sort_keys=True) for b in tie_bad})
-    ctx.cov["rule"] = ("RAYON_NUM_THREADS=1 x every permutation of --files over %d files x placements of passing / warned / failing / grandfathered files, unreadable entries (I/O error: no result) and byte-identical Python/Rust twins (old mtimes) (fail-fast by flag and by "
+    ctx.cov["rule"] = ("RAYON_NUM_THREADS=1 x every permutation of --files over %d files x placements of passing / warned / failing / grandfathered files (grandfathered ones also with a size that differs from the recorded one: grown, shrunk), a file named twice through a symlink that falls under a laxer content rule, unreadable entries (I/O error: no result) and byte-identical Python/Rust twins (old mtimes) (fail-fast by flag and by "
                        "[check] fail_fast); 1..16 threads x random --files orders and directory scans x repetitions for 8..60 files; every observed R' checked with ff_subb against the "
                        "run without fail-fast, sequential runs against ff_seq, exit against determine_exit_code(apply_baseline_comparison R'); without fail-fast stdout compared bytewise "
                        "across 1,2,4,8,16 threads; directory scans and --files runs with baseline entries of deleted files under --ratchet strict / auto / warn (exit and, when nothing was dropped, the tightened file equal with and without fail-fast); "
@@ -179,6 +185,8 @@ def run(ctx):
                                      "with_grandfathered": sum(1 for t in traces if any(r["status"] == "G" for r in t["obs"])),
                                      "with_byte_identical_twins": sum(1 for t in traces if "y" in t["sizes"] and "r" in t["sizes"]),
                                      "scans_with_grandfathered_naming_violation": sum(1 for t in traces if "N" in t["sizes"]),
+                                     "with_grown_or_shrunk_recorded_file": sum(1 for t in traces if t["baseline"] and any(t["sizes"][j] in "gk" for j in t["baseline"])),
+                                     "with_symlink_alias_under_another_rule": sum(1 for t in traces if "l" in t["sizes"] and not t["full_scan"]),
                                      "with_unreadable_entry": sum(1 for t in traces if "e" in t["sizes"] and not t["full_scan"]),
                                      "with_entries_of_deleted_files_under_ratchet": sum(1 for t in traces if t.get("ghosts") and t.get("ratchet")),
                                      "updating_runs": sum(1 for t in traces if t.get("update"))}
